@@ -1,22 +1,21 @@
 /-
 C31 — IP filters match exactly the configured subnets.
 
-Model: `NtpVerif.Model.IpFilter`.  STATUS: PARTIAL.  The full statement is about the FLAT model (the node
-array `fill_node` builds and `lookup` walks): `Full` below.  What is proved, for all prefix lists and all
-addresses, is the same statement for the TREE model (`lookup_iff_tree`, `is_in_iff_tree`): identical
-per-node computation (mask, sort, buckets, first-element rule marking 2^(4-len) symbols, coverage sweep,
-`outset &= !inset`, recursion on nibble-shifted values, child found by counting the undecided lower
-symbols), children as sub-terms instead of array indices.  The missing lemma is named `flat_eq_tree`
-(the array is the `flatten` layout of the tree, and buckets cut by the 16 counts are the per-nibble
-filters of the sorted slice); `full_of_flat_eq_tree` shows it is the ONLY gap.  The model driver checks
-`createF ps = flatten (createT ps)` and `lookupF = lookupT` on every list and address of every run.
+Model: `NtpVerif.Model.IpFilter`.  STATUS: FULL.  The statement is about the FLAT model — the node array
+`fill_node` builds (`child_offset`, buckets cut out of the sorted slice by the 16 counts, children nodes
+reserved then filled in order) and `lookup` walks: `Full` / `lookup_iff`.  Proof route: the TREE model
+(identical per-node computation, children as sub-terms) is correct (`lookup_iff_tree`); the array is the
+`flatten` layout of the tree (`array_is_layout`), and walking the layout gives the tree's answers
+(`flat_eq_tree_proved`); hence `full`.  The model driver still compares the two models on every run.
 
 Property sentence                                               theorem
- "An address is treated as listed exactly when it lies in at      lookup_iff_tree (u128 prefixes),
-  least one configured subnet, for IPv4, IPv6 and IPv4-mapped      is_in_iff_tree (IpFilter::new / is_in with
-  IPv6 addresses and for every mask length"                        canonicalisation)         [tree model]
+ "An address is treated as listed exactly when it lies in at      lookup_iff (= full : Full) on u128 prefixes,
+  least one configured subnet, for IPv4, IPv6 and IPv4-mapped      is_in_iff (IpFilter::new / is_in with
+  IPv6 addresses and for every mask length"                        canonicalisation)          [flat model]
  "subnet strings are accepted exactly when the address parses     parse_accepts_iff  (after std's two parsers;
   and the mask fits the (canonicalised) address family"             textual parsing is std's)
+ supporting: lookup_iff_tree, is_in_iff_tree (tree model), array_is_layout, flat_eq_tree_proved,
+ full_of_flat_eq_tree
 -/
 import NtpVerif.Proofs.IpFilter
 
@@ -33,7 +32,7 @@ def Full : Prop :=
     ∃ b, memberF ps v = some b ∧
       (b = true ↔ ∃ p ∈ ps, v / 2 ^ (128 - p.2) = p.1 / 2 ^ (128 - p.2))
 
-/-- **C31.lookup_iff_tree** (partial: tree model) — for every prefix list (values below 2^128, lengths
+/-- **C31.lookup_iff_tree** (tree model) — for every prefix list (values below 2^128, lengths
     0..128) and every 128-bit value: building the trie never fails, the lookup terminates within the
     33-level budget without an index error, and it answers `true` exactly when some prefix `(p, len)` of
     the list agrees with the value on its top `len` bits. -/
@@ -42,11 +41,34 @@ theorem lookup_iff_tree (ps : List Prefix) (v : Nat) (hps : ∀ p ∈ ps, p.1 < 
       (b = true ↔ ∃ p ∈ ps, v / 2 ^ (128 - p.2) = p.1 / 2 ^ (128 - p.2)) :=
   memberT_iff ps v hv hps
 
-/-- **C31.full_of_flat_eq_tree** — `flat_eq_tree` is the only thing missing for `Full`. -/
+/-- **C31.full_of_flat_eq_tree** — `Full` follows from `flat_eq_tree` and the tree-level theorem. -/
 theorem full_of_flat_eq_tree (h : flat_eq_tree) : Full := by
   intro ps v hps hv
   rw [h ps v hps hv]
   exact lookup_iff_tree ps v hps hv
+
+/-- **C31.array_is_layout** — the node array the code builds (`create`) is the layout of the tree:
+    root first, then for every node its children block followed by the children's descendants. -/
+theorem array_is_layout (ps : List Prefix) (hps : ∀ p ∈ ps, p.1 < W ∧ p.2 ≤ 128) :
+    createF ps = (createT ps).map flatten :=
+  createF_eq_flatten ps hps
+
+/-- **C31.flat_eq_tree_proved** — the formerly missing lemma: array model and tree model agree on every
+    prefix list and every value. -/
+theorem flat_eq_tree_proved : flat_eq_tree :=
+  fun ps v hps hv => memberF_eq_memberT ps v hps hv
+
+/-- **C31.full** — the full statement, on the array the code builds. -/
+theorem full : Full := full_of_flat_eq_tree flat_eq_tree_proved
+
+/-- **C31.lookup_iff** — `Full` spelled out: for every prefix list (values below 2^128, lengths 0..128)
+    and every 128-bit value, `create` does not fail, `lookup` on the node array stays in bounds and ends
+    within 33 levels, and it answers `true` exactly when some prefix `(p, len)` of the list agrees with
+    the value on its top `len` bits. -/
+theorem lookup_iff (ps : List Prefix) (v : Nat) (hps : ∀ p ∈ ps, p.1 < W ∧ p.2 ≤ 128) (hv : v < W) :
+    ∃ b, memberF ps v = some b ∧
+      (b = true ↔ ∃ p ∈ ps, v / 2 ^ (128 - p.2) = p.1 / 2 ^ (128 - p.2)) :=
+  full ps v hps hv
 
 /-- an address (already canonical) lies in a subnet -/
 def liesIn (s : Subnet) : Addr → Prop
@@ -114,7 +136,7 @@ theorem v4_covers (n a m : Nat) (hm : m ≤ 32) :
     rw [← Nat.pow_add]; congr 1; omega
   rw [e, Nat.mul_div_mul_right _ _ (Nat.pow_pos (by omega)), Nat.mul_div_mul_right _ _ (Nat.pow_pos (by omega))]
 
-/-- **C31.is_in_iff_tree** (partial: tree model) — `IpFilter::new(subnets).is_in(addr)`: for every list of
+/-- **C31.is_in_iff_tree** (tree model) — `IpFilter::new(subnets).is_in(addr)`: for every list of
     subnets whose masks fit their family (what `from_str` produces) and every IPv4, IPv6 or IPv4-mapped
     address, the answer is `true` exactly when the canonicalised address lies in one of the subnets. -/
 theorem is_in_iff_tree (subnets : List Subnet) (addr : Addr) (h : ∀ s ∈ subnets, Fits s)
@@ -192,6 +214,29 @@ theorem is_in_iff_tree (subnets : List Subnet) (addr : Addr) (h : ∀ s ∈ subn
         exact ⟨s, hs, by rw [hn]⟩
       · exact hl.elim
 
+/-- **C31.is_in_iff** — `IpFilter::new(subnets).is_in(addr)` on the node arrays: for every list of subnets
+    whose masks fit their family (what `from_str` produces) and every IPv4, IPv6 or IPv4-mapped address,
+    the answer is `true` exactly when the canonicalised address lies in one of the subnets. -/
+theorem is_in_iff (subnets : List Subnet) (addr : Addr) (h : ∀ s ∈ subnets, Fits s) (ha : AddrOk addr) :
+    ∃ b, isInF subnets addr = some b ∧ (b = true ↔ ∃ s ∈ subnets, liesIn s (canonical addr)) := by
+  obtain ⟨b, hb, hbm⟩ := is_in_iff_tree subnets addr h ha
+  refine ⟨b, ?_, hbm⟩
+  unfold isInF
+  unfold isInT at hb
+  rw [createF_eq_flatten _ (v4list_ok subnets h), createF_eq_flatten _ (v6list_ok subnets h)]
+  rcases h4 : createT (v4list subnets) with _ | t4
+  · rw [h4] at hb; simp at hb
+  · rcases h6 : createT (v6list subnets) with _ | t6
+    · rw [h4, h6] at hb; simp at hb
+    · rw [h4, h6] at hb
+      simp only [Option.map_some]
+      simp only at hb
+      rcases hc : canonical addr with a | a
+      · rw [hc] at hb
+        exact lookup_placed _ _ t4 0 1 _ b (placed_flatten t4) hb
+      · rw [hc] at hb
+        exact lookup_placed _ _ t6 0 1 _ b (placed_flatten t6) hb
+
 /-- **C31.parse_accepts_iff** — after std's parsers produced an address and a `u8` mask, `from_str` accepts
     exactly when the mask fits the canonicalised family: `≤ 32` for IPv4, `≤ 128` for IPv6 that is not
     IPv4-mapped, `96 ≤ mask ≤ 128` for IPv4-mapped (stored as the IPv4 subnet with `mask − 96`); the
@@ -207,7 +252,7 @@ theorem parse_accepts_iff (addr : Addr) (mask : Nat) :
       subnetOfParsed addr mask = if mask ≤ 128 then .ok ⟨.v6 a, mask⟩ else .error .mask) := by
   refine ⟨?_, ?_, ?_⟩
   · rintro a rfl
-    simp only [subnetOfParsed, canonical]
+    simp only [subnetOfParsed]
     split <;> rename_i h <;> split <;> first | rfl | omega
   · rintro a rfl hm
     simp only [subnetOfParsed, canonical, hm, if_true]
@@ -278,6 +323,11 @@ example :
 
 end NtpVerif.C31
 
+#print axioms NtpVerif.C31.full
+#print axioms NtpVerif.C31.lookup_iff
+#print axioms NtpVerif.C31.is_in_iff
+#print axioms NtpVerif.C31.array_is_layout
+#print axioms NtpVerif.C31.flat_eq_tree_proved
 #print axioms NtpVerif.C31.lookup_iff_tree
 #print axioms NtpVerif.C31.full_of_flat_eq_tree
 #print axioms NtpVerif.C31.is_in_iff_tree
